@@ -113,7 +113,6 @@ Section Ops.
     destruct (clause_list _) eqn:Ecl in Hfind; [|discriminate]. clear Hfind.
     apply clause_list_nil in Ecl. cbn [forallb snd] in Ecl.
     apply andb_true_iff in Ecl as [C2 Ecl].
-    apply andb_true_iff in Ecl as [C3 Ecl].
     apply andb_true_iff in Ecl as [C5 Ecl]. apply andb_true_iff in Ecl as [C6 Ecl].
     apply andb_true_iff in Ecl as [C7 _].
     set (style := effective_style b bo) in *.
@@ -208,18 +207,9 @@ Section Ops.
       by (unfold op_config, port_config; destruct (bo_soap bo); cbn [cf_transport]; rewrite Hsb; cbn [obind]; rewrite Htr; reflexivity).
     replace (obind (b_soap b) sb_transport) with (Some SOAP_HTTP) by (rewrite Hsb; cbn; rewrite Htr; reflexivity).
     rewrite Hloc.
-    assert (truthy (Some style) = true) as Tst.
-    { assert (style_ok (Some style) = true) as Hso.
-      { unfold style, effective_style. destruct (obind (bo_soap bo) so_style) as [s|] eqn:E1.
-        - exact Hostyle.
-        - destruct (obind (b_soap b) sb_style) as [s|] eqn:E2; [|reflexivity].
-          rewrite Hsb in E2. cbn in E2. rewrite E2 in Hsty. exact Hsty. }
-      destruct (style_cases _ Hso) as [->| ->]; reflexivity. }
-    assert (truthy (Some loc) = true) as Tloc by (destruct loc; [discriminate|reflexivity]).
-    cbn [flat_map snd fst]. rewrite Tst, Tloc. replace (truthy (Some SOAP_HTTP)) with true by reflexivity.
+    cbn [flat_map snd fst].
     unfold const_of, envelope_of.
-    destruct (obind (bo_soap bo) so_action) as [[|ac ar]|] eqn:Eact.
-    - (* soapAction="" is excluded by clause 3 *) discriminate.
+    destruct (obind (bo_soap bo) so_action) as [act|] eqn:Eact.
     - cbn. rewrite Di, Do. reflexivity.
     - cbn. rewrite Di, Do. reflexivity.
   Qed.
